@@ -37,7 +37,7 @@ PARAMS = {
 def _src_hash():
     h = hashlib.sha256()
     here = os.path.dirname(os.path.abspath(__file__))
-    for f in ("heap.py", "heap_check.py", "gcmodel.py", "interp.py", "tables.py", "canon.py", "model.py"):
+    for f in ("heap.py", "heap_check.py", "gcmodel.py", "interp.py", "tables.py", "canon.py", "model.py", "layout_terms.py"):
         with open(os.path.join(here, f), "rb") as fh:
             h.update(fh.read())
     return h.hexdigest()[:12]
